@@ -243,3 +243,35 @@ def critic_bytes(rng):
     parts = [b'{++', b'++}', b'{--', b'--}', b'{~~', b'~>', b'~~}', b'{==', b'==}', b'{>>', b'<<}', b'a', b'word ', b' ', b'\n', b'\n\n', b'\\{', b'\\}', b'{', b'}',
              b'*', b'# ', b'\xc3\xa0', b'+', b'-', b'~', b'=', b'<', b'>']
     return b''.join(rng.choice(parts) for _ in range(rng.randint(1, 40)))
+
+
+# sources whose *body* renders to nothing or nearly nothing (boundary of every "write the result" path)
+EDGE_SOURCES = [b'', b'\n', b'\n\n\n', b' ', b'  \n', b'\t\n', b'[a]: http://example.com/\n', b'[a]: http://example.com/ "T"\n\n[b]: <x>\n', b'[^f]: unused note\n',
+                b'[#c]: unused citation\n', b'[>AB]: unused abbreviation\n', b'[?g]: unused glossary\n', b'Title: only metadata\n', b'Title: t\nAuthor: a\n\n',
+                b'---\ntitle: y\n---\n', b'<!-- only a comment -->\n', b'x', b'x\n', b'\\\n', b'#\n', b'* \n', b'> \n', b'```\n```\n', b'{{TOC}}\n', b'\xef\xbb\xbf', b'\r\n', b'\r']
+
+
+def edge_source(rng):
+    return rng.choice(EDGE_SOURCES)
+
+
+def state_heavy(rng):
+    """Documents that draw heavily on process-wide or per-engine hidden state: e-mail obfuscation (random numbers, the generator
+    refills its buffer every 100 draws), footnote/citation/glossary counters, heading label tables, abbreviation tables."""
+    parts = []
+    for _ in range(rng.randint(1, 4)):
+        k = rng.random()
+        if k < 0.45:
+            n = rng.choice([1, 2, 5, 8, 12, 20, 40])
+            parts.append(' '.join('<user%d.%s@example%d.org>' % (i, 'x' * rng.randint(0, 12), rng.randint(0, 99)) for i in range(n)))
+        elif k < 0.6:
+            n = rng.randint(1, 12)
+            parts.append(' '.join('note[^n%d]' % i for i in range(n)) + '\n\n' + '\n\n'.join('[^n%d]: text %d <a%d@b.c>' % (i, i, i) for i in range(n)))
+        elif k < 0.75:
+            n = rng.randint(1, 10)
+            parts.append('\n\n'.join('%s Heading %d\n\nsee [Heading %d][] and mailto:x%d@y.z' % ('#' * rng.randint(1, 4), i, rng.randint(0, n), i) for i in range(n)) + '\n\n{{TOC}}')
+        elif k < 0.85:
+            parts.append('[mail me](mailto:someone.%d@example.com) and [>AB%d] AB%d\n\n[>AB%d]: abbreviation' % ((rng.randint(0, 9),) * 4))
+        else:
+            parts.append('cite[#c%d] term [?g%d]\n\n[#c%d]: Author. *Title*.\n\n[?g%d]: definition' % ((rng.randint(0, 9),) * 4))
+    return ('\n\n'.join(parts) + '\n').encode()
